@@ -35,13 +35,20 @@ class CHK:
         return [n * 2 ** lv for n in self.n0]
 
 
-def gen_checkpoint(rng, nlevels=None):
+def gen_checkpoint(rng, nlevels=None, big=False):
+    """big: one level, two boxes of which one is 32x32x24 cells with 3 ghost cells and 9 species (a state FAB above 4 MiB)"""
     c = CHK()
     nlevels = nlevels or rng.choice([1, 2, 2, 3])
     bf = rng.choice([2, 4])
     c.n0, mesh = gen.gen_mesh(rng, 3, nlevels, bf, max_blocks=2)
     c.species = rng.sample(['H2', 'O2', 'OH', 'N2', 'H2O', 'CH4', 'CH2(S)', 'C(S)', 'AR'], rng.randint(1, 4))   # names with brackets included
     c.nghost = rng.choice([1, 2, 3])
+    if big:
+        nlevels, bf = 1, 8
+        c.n0 = [32, 32, 32]
+        mesh = [[((0, 0, 0), (31, 31, 23)), ((0, 0, 24), (31, 31, 31))]]
+        c.species = ['H2', 'O2', 'OH', 'N2', 'H2O', 'CH4', 'CH2(S)', 'C(S)', 'AR']
+        c.nghost = 3
     c.time = rng.choice([0.49947225144556617, 1.5e-4, 12.25, 3.946824488833992e-12])
     c.step = rng.choice([0, 5, 70100])
     c.int_line = rng.random() < 0.4
@@ -61,8 +68,11 @@ def gen_checkpoint(rng, nlevels=None):
                 shape = [h - l + 1 + 2 * g for l, h in zip(lo, hi)]
                 if sub == 'p':
                     shape = [s + 1 for s in shape]
-                a = np.array([rng.uniform(-50.0, 50.0) for _ in range(int(np.prod(shape)) * ncomp[sub])]).reshape(
-                    tuple(shape) + (ncomp[sub],), order='F')
+                nval = int(np.prod(shape)) * ncomp[sub]
+                if big:
+                    a = np.random.default_rng(rng.getrandbits(32)).uniform(-50.0, 50.0, nval).reshape(tuple(shape) + (ncomp[sub],), order='F')
+                else:
+                    a = np.array([rng.uniform(-50.0, 50.0) for _ in range(nval)]).reshape(tuple(shape) + (ncomp[sub],), order='F')
                 if sub == 'state':
                     # positive mass fractions
                     a[..., 4:4 + ns] = np.abs(a[..., 4:4 + ns]) / 100.0 + 0.01
@@ -75,7 +85,7 @@ def gen_checkpoint(rng, nlevels=None):
         c.levels.append(lev)
     c.meta = dict(nlevels=nlevels, bf=bf, nspecies=ns, nghost=c.nghost, geo=geo_stream + '/' + geo_kind,
                   int_line=c.int_line, nboxes=[len(l['boxes']) for l in c.levels], layouts_state=layouts['state'],
-                  layouts_gradp=layouts['gradp'], n0=c.n0)
+                  layouts_gradp=layouts['gradp'], n0=c.n0, case='big' if big else 'generated')
     return c
 
 
